@@ -388,7 +388,7 @@ func ownQuote(c Case) bool {
 }
 
 func Run(r *report.Run) {
-	r.Rule = "plans of the real MySQL/PostgreSQL/SQLite planners over a two-table schema in which one slot (thorough: two slots) out of 11 (table/column/index/check/foreign-key name, table/column/index comment, string default, enum value, check string literal) holds each of 20 adversarial strings (quotes, semicolon, comment markers, backslash, newline, dollar tags, BEGIN/END, DELIMITER and atlas:delimiter lines) x change kind {create, drop, alter, alter back} x 6 formatters (the atlas one also through Planner.WriteCheckpoint) x indent {none, two spaces} x plan delimiter (atlas format: default, \\nGO, //, \\n-- end); the file is read back with the matching reader and the dialect's scanner and must yield exactly Plan.Changes[].Cmd; every change comment carries a marker that must not reach a statement; import slice: the directory written by each third-party formatter is imported by the real `atlas migrate import` and the resulting atlas file, read with the dialect's scanner, must again yield exactly the planned statements; non-trivial = case with >=1 adversarial slot; distinct = (dialect, slots, kind, format, indent, delimiter)"
+	r.Rule = "plans of the real MySQL/PostgreSQL/SQLite planners over a two-table schema in which one slot (thorough: two slots) out of 11 (table/column/index/check/foreign-key name, table/column/index comment, string default, enum value, check string literal) holds each of 20 adversarial strings (quotes, semicolon, comment markers, backslash, newline, dollar tags, BEGIN/END, DELIMITER and atlas:delimiter lines) x change kind {create, drop, alter, alter back} x 6 formatters (the atlas one also through Planner.WriteCheckpoint) x indent {none, two spaces} x plan delimiter (atlas format: default, \\nGO, //, \\n-- end); the file is read back with the matching reader and the dialect's scanner and must yield exactly Plan.Changes[].Cmd; every change comment carries a marker that must not reach a statement; import slice: the directory written by each third-party formatter is imported by the real `atlas migrate import` and the resulting atlas file, read with the dialect's scanner, must again yield exactly the planned statements; hand-written third-party files (3 statements x 4 terminator spellings incl. trailing blanks / tab / CR LF x 3 file endings incl. an unterminated last statement x 5 formats) must be read as exactly their 3 statements by the format's reader and by `migrate import`; non-trivial = case with >=1 adversarial slot; distinct = (dialect, slots, kind, format, indent, delimiter)"
 	r.Assumptions = []string{
 		"statement text is compared after trimming one trailing ';'",
 		"the import slice uses create plans with at most one adversarial slot (quick: 4 slots; thorough: all)",
@@ -439,6 +439,7 @@ func Run(r *report.Run) {
 		r.Violate(classifyImport(c, out[i].problems), fmt.Sprintf("import %s %v %s %s: %s", c.Dialect, c.Values, c.Kind, c.Format, strings.Join(out[i].problems, " | ")), map[string]any{"import": c})
 	}
 	r.Set("import_cases", len(ics))
+	r.Set("handwritten_cases", runHandWritten(r))
 }
 
 // importCases: create-plans with at most one adversarial slot, written by each third-party formatter.
